@@ -351,6 +351,7 @@ class Share:
     def _satisfy_offsets(self):
         version_s = self._received.get(0, 4)
         if version_s is None:
+            self._check_header_available(0, 4)
             return False
         (version,) = struct.unpack(">L", version_s)
         if version == 1:
@@ -368,6 +369,7 @@ class Share:
         offset_table_size = 6 * self._fieldsize
         table_s = self._received.pop(table_start, offset_table_size)
         if table_s is None:
+            self._check_header_available(table_start, offset_table_size)
             return False
         fields = struct.unpack(">"+6*self._fieldstruct, table_s)
         offsets = {}
@@ -404,6 +406,19 @@ class Share:
         # some wiggle room: a place to stash data for later extensions.
 
         return True
+
+    def _check_header_available(self, start, length):
+        # Until the offset table has arrived, everything we ask for is merely
+        # "wanted" (see _desire), so the usual needed-but-unavailable check
+        # in _do_loop never fires. If the server has told us that part of
+        # the header does not exist (a share truncated inside its version
+        # word or offset table), no amount of asking again will produce it:
+        # give up on this share instead of re-requesting it for ever.
+        if (Spans(start, length) & self._unavailable).len():
+            self.had_corruption = True
+            raise DataUnavailable("share is too short to hold its offset"
+                                  " table: [%d:+%d] will never arrive"
+                                  % (start, length))
 
     def _satisfy_UEB(self):
         o = self.actual_offsets
